@@ -669,6 +669,21 @@ def _cq(s: str) -> str:
     return '"' + s.replace('"', '""') + '"'
 
 
+def allowed_previous(repo: str):
+    """signature.KIND_TO_ALLOWED_PREVIOUS as [(kind, [allowed previous kinds])] (names only)"""
+    tree = ast.parse((Path(repo) / "pyanalyze" / "signature.py").read_text())
+    for st in tree.body:
+        tgt = st.targets[0] if isinstance(st, ast.Assign) and len(st.targets) == 1 else getattr(st, "target", None)
+        if isinstance(tgt, ast.Name) and tgt.id == "KIND_TO_ALLOWED_PREVIOUS" and isinstance(st.value, ast.Dict):
+            out = []
+            for k, v in zip(st.value.keys, st.value.values):
+                if not (isinstance(k, ast.Attribute) and isinstance(v, ast.Set) and all(isinstance(e, ast.Attribute) for e in v.elts)):
+                    raise TranslateError(f"signature.py:{st.lineno}: unsupported entry in KIND_TO_ALLOWED_PREVIOUS")
+                out.append((k.attr, [e.attr for e in v.elts]))
+            return out
+    raise TranslateError("signature.py: KIND_TO_ALLOWED_PREVIOUS not found")
+
+
 def translate(repo: str) -> str:
     """Text of coq/theories/Gen/Sites.v for the current source."""
     sites, _env = inventory(repo)
@@ -680,5 +695,9 @@ def translate(repo: str) -> str:
         "(* GENERATED by harness/translate/sites.py from every non-test module of pyanalyze (the seven files\n"
         "   anchored by C10 first) -- do not edit *)\n"
         "From Coq Require Import String List.\nRequire Import PV.Det.Audit.\nImport ListNotations.\nOpen Scope string_scope.\n\n"
-        "Definition sites : list site := [\n" + ";\n".join(rows) + "\n]%list.\n"
+        "Definition sites : list site := [\n" + ";\n".join(rows) + "\n]%list.\n\n"
+        "(* signature.KIND_TO_ALLOWED_PREVIOUS (for the audit of Signature.validate's join) *)\n"
+        "Definition allowed_previous : list (string * list string) := [\n"
+        + ";\n".join("  (" + _cq(k) + ", [" + "; ".join(_cq(x) for x in v) + "])" for k, v in allowed_previous(repo))
+        + "\n]%list.\n"
     )
